@@ -188,7 +188,7 @@ func (p *prepared) sendOpts() transfer.Options {
 	return transfer.Options{
 		ChunkSize: chunk, ParallelFiles: total, StripeMax: p.x.Conns, Resume: p.x.SendResume, ResolveFilePath: p.resolve, HashAlg: p.x.HashAlg,
 		SmallSlotFrac: p.x.SlotFrac,
-		ParamSource: func() transfer.RuntimeParams { return transfer.RuntimeParams{ChunkSize: chunk, ParallelFiles: total} },
+		ParamSource:   func() transfer.RuntimeParams { return transfer.RuntimeParams{ChunkSize: chunk, ParallelFiles: total} },
 	}
 }
 
